@@ -31,6 +31,9 @@ REMOTE = {
     H + "d.json": {"x": {"type": "integer"}, "y": {"type": "string"}, "z": {"items": {"$ref": "#/x"}},
                    "e": {"$ref": "e.json#/t"}},
     H + "e.json": {"t": {"minimum": 5}},
+    # whole documents that are boolean schemas (not containers): cached and counted like any other document
+    H + "t.json": True,
+    H + "f.json": False,
 }
 STORE = {H + "s.json#": {"t": {"type": "boolean"}}}        # as ids are usually written: not in normal form
 
@@ -54,13 +57,16 @@ def driver(d):
              "m": {"$ref": META[d] + "#"},
              "w": {"$ref": "d.json#"},
              "u": {"$ref": "HTTP" + H[4:] + "d.json#/x"},
+             "t": {"$ref": "t.json"},
+             "tt": {"$ref": "t.json#"},
+             "f": {"$ref": "f.json"},
          }}
-    inst = [{"a": 1, "b": "s", "s": True},
-            {"a": "no", "c": [1, "no"], "e": 1, "u": "no"},
+    inst = [{"a": 1, "b": "s", "s": True, "t": 1, "tt": 2},
+            {"a": "no", "c": [1, "no"], "e": 1, "u": "no", "f": 1, "t": 0, "tt": None},
             {"m": {"type": 12}, "s": 1, "b": 2},
             {"w": 1, "a": 2, "c": [3]}]
     refs = ["d.json#/x", "d.json", "d.json#", "d.json#/nope", "HTTP" + H[4:] + "d.json#/y", "HTTP" + H[4:] + "d.json",
-            "e.json#/t",
+            "e.json#/t", "t.json", "f.json#",
             "s.json#/t", META[d] + "#/properties", META[d]]
     urls = [H + "d.json#/y", H + "e.json", "HTTP" + H[4:] + "e.json"]
     return {"schema": S, "instances": inst, "refs": refs, "urls": urls}
